@@ -82,8 +82,15 @@ def _construct_under_binder(ex, st, ci, args, kwargs, node):
             c = z3.simplify(ex.spec_bool(st, csrc, {}))
             if not z3.is_false(c):
                 raise Unsupported(f'{ci.name}(...) under a binder may raise {exc}')
+        from pyvc.state import occurs
         for label, src in con.ensures.items():
-            st.assume(ex.spec_bool(st, src, {}))
+            fact = ex.spec_bool(st, src, {})
+            if not con.requires and not any(occurs(var, fact) for var, _ in st.bound):
+                # a closed instance of a total contract (no requires, cannot raise): a property of the term mk!K(args)
+                # itself, asserted without the position guard (otherwise the solver must find a witness position)
+                st.pc.append(fact)
+            else:
+                st.assume(fact)
         ex.ctx.note(f'ENGINE c05c: {ci.name}(...) built under a binder = term mk!{ci.name}(args) + contract of {con.qualname}')
         # paths that built different families of nodes are kept apart at joins (State.ghost keys differ: no merge);
         # more paths, never fewer facts
